@@ -178,7 +178,7 @@ __CPROVER_loop_invariant(!VERIF_thrown)
 __CPROVER_loop_invariant(CurrentBlock.number > self->parts.gidx ==> LVBITS(LEV.data[self->parts.gidx]) == LVBITS(self->parts.g.px->gmin))
 __CPROVER_decreases(NumberOfBlocks.number - CurrentBlock.number)
 //@end
-//@harness h_Ham_computeGroundEnergy enforce=Hamiltonian_computeGroundEnergy props=C03 min_obl=719 reach=2 timeout=300 defs=-DVERIF_FP_IEEE
+//@harness h_Ham_computeGroundEnergy enforce=Hamiltonian_computeGroundEnergy props=C03 min_obl=711 reach=2 timeout=300 defs=-DVERIF_FP_IEEE
 void h_Ham_computeGroundEnergy(void)
 {
   struct Hamiltonian *p;
@@ -206,7 +206,7 @@ __CPROVER_loop_invariant(!VERIF_thrown)
 __CPROVER_loop_invariant(CurrentBlock.number > self->parts.gidx ==> LVBITS(out.data[ham_offs[self->parts.gidx] + g_k]) == LVBITS(self->parts.g.px->Eigenvalues.data[g_k]))
 __CPROVER_decreases(self->S.nblocks - CurrentBlock.number)
 //@end
-//@harness h_Ham_getEigenValues enforce=Hamiltonian_getEigenValues props=C03 min_obl=795 reach=1 timeout=450
+//@harness h_Ham_getEigenValues enforce=Hamiltonian_getEigenValues props=C03 min_obl=786 reach=1 timeout=450
 void h_Ham_getEigenValues(void)
 {
   struct Hamiltonian *p;
@@ -223,7 +223,7 @@ __CPROVER_requires(0 <= in.number && in.number < self->S.nblocks)
 __CPROVER_assigns(HAM_GHOST_CACHE(self))
 __CPROVER_ensures(in.number == self->parts.gidx ==> __CPROVER_return_value == self->parts.g.px)
 //@end
-//@harness h_Ham_getPart enforce=Hamiltonian_getPart props=C03 min_obl=402 reach=1 timeout=60
+//@harness h_Ham_getPart enforce=Hamiltonian_getPart props=C03 min_obl=398 reach=1 timeout=60
 void h_Ham_getPart(void)
 {
   struct Hamiltonian *p; BlockNumber b;
@@ -245,7 +245,7 @@ __CPROVER_ensures(VERIF_thrown == (state >= self->S.StateSize))
 /* C03: "the eigenvalue looked up for any state label is the one stored for its block and position" */
 __CPROVER_ensures(!VERIF_thrown ==> D_SAME(__CPROVER_return_value, self->parts.g.px->Eigenvalues.data[g_pos]))
 //@end
-//@harness h_Ham_getEigenValue enforce=Hamiltonian_getEigenValue props=C03 min_obl=491 reach=2 timeout=90
+//@harness h_Ham_getEigenValue enforce=Hamiltonian_getEigenValue props=C03 min_obl=486 reach=2 timeout=90
 void h_Ham_getEigenValue(void)
 {
   struct Hamiltonian *p; unsigned long s;
